@@ -17,7 +17,7 @@ EXPLANATION = "proof tier: VCs from the real AST of partial_trace with permute_s
 TRUSTED = [
     "mixed-radix rule (digit regrouping in reshape; re-proved in lean/MixedRadix.lean), change of variables on sum-bound digits ranging over a full [0, radix)",
     "numpy primitives under assumed contracts: np.reshape(order=F), transpose(axes), a[:, :, list(range(0, T*T, T+1))] picks the diagonal of a TxT block, np.sum(axis)",
-    "S-set-order: list(set(range(n)) - set(sys)) is ascending (validated by the bounded clause for n <= 8)",
+    "the remaining subsystems are listed by sorted(set difference): ascending by construction (the former reliance on set iteration order was a defect, F-02a)",
     "S-float-dims: prod_dim / prod_dim_sys, np.ones(k) * x / y, int(float) exact on integral values; scalar/omitted dim only in the bounded tier",
     "callee contract used (not body): permute_systems (proved under C01)",
     "cvxpy Variable branch (expr_as_np_array / np_array_as_expr) only in the bounded tier",
@@ -93,8 +93,8 @@ def cases(tier, seed):
     for dt in ("int8", "uint8", "int16", "int32", "bool"):
         for d, S in (([2, 3], [1]), ([3, 2, 2], [0, 2]), ([4, 4], [0])):
             add("int_dtype", dict(dtype=dt, dims=d, sys=S), "int_dtype/%s" % dt)
-    # S-set-order for n <= 8 (qubits)
-    for n in (5, 6, 7, 8):
-        for S in ([1, 3], [n - 1, 0], [2], list(range(1, n, 2))):
+    # many subsystems (the order of the remaining subsystems must be the original one for every n)
+    for n in (5, 6, 7, 8, 9, 10):
+        for S in ([1, 3], [n - 1, 0], [2], list(range(1, n, 2)), list(range(n - 3)), list(range(n - 4, 1, -1))):
             add("ptrace.index", dict(sys=S, dims=[2] * n, sysform="list", dimform="list", entries="float"), "partial_trace/n=%d" % n)
     return out
